@@ -267,7 +267,7 @@ def aggregate_records(ctx) -> None:
                       f"`{stmt_key(cs.call)[:60]}`: a collection element enters the mask without the number->Tip conversion (or a Tip member is converted again)", where=f.where(cs.call))
     # the fold
     folds = [n for n in fv.cfg.nodes if n.kind == "stmt" and isinstance(n.ast, (ast.Assign, ast.Return)) and n.ast.value is not None and any(is_name(s, L) for s in ast.walk(n.ast.value)) and (
-        (isinstance(n.ast, ast.Assign) and is_name(n.ast.targets[0], TIP)) or isinstance(n.ast, ast.Return))]
+        (isinstance(n.ast, ast.Assign) and isinstance(n.ast.targets[0], ast.Name) and n.ast.targets[0].id != L) or isinstance(n.ast, ast.Return))]
     if len(folds) != 1:
         ctx.rep.inconclusive(rule, f.qualname + "/fold", f"expected one fold of `{L}` into the mask, found {len(folds)}")
         return
@@ -280,7 +280,9 @@ def aggregate_records(ctx) -> None:
     ctx.rep.check(rej, "C10.type-guard", f"{f.qualname}/element-type", "elements that are neither int nor Tip raise ValueError", "a collection element that is neither an int nor a Tip is not rejected with ValueError", where=w)
     # scalar int conversion
     conv_scalar = any(n.kind == "stmt" and isinstance(n.ast, (ast.Assign, ast.Return)) and n.ast.value is not None and isinstance(n.ast.value, ast.Call) and call_fname(n.ast.value) == "int_to_tip"
-                      and n.ast.value.args and is_name(n.ast.value.args[0], TIP) and (isinstance(n.ast, ast.Return) or is_name(n.ast.targets[0], TIP)) for n in fv.cfg.nodes)
+                      and n.ast.value.args and isinstance(n.ast.value.args[0], ast.Name) and lp.id not in fv.cfg.enclosing_loops(n.id)
+                      and is_name(strip_norm(fv.res.resolve(n.ast.value.args[0], n.id)) if not is_sym(fv.res.resolve(n.ast.value.args[0], n.id), "phi") else ast.Name(id=TIP, ctx=ast.Load()), TIP)
+                      for n in fv.cfg.nodes)
     ctx.rep.check(conv_scalar, rule, f"{f.qualname}/scalar", "a single tip number is converted with int_to_tip", "a single tip number is not converted with int_to_tip", where=f.where())
     # neither Tip nor iterable nor int -> ValueError
     other = False
@@ -331,7 +333,12 @@ def _mask_fold(ctx, fv, f, name: str, at: int, depth: int = 0) -> Tuple[str, Opt
                 kinds.append("unknown")
         elif n.kind == "stmt" and isinstance(n.ast, ast.Assign):
             v = n.ast.value
-            if isinstance(v, ast.Constant) and v.value == 0:
+            if isinstance(v, ast.Constant) and (v.value == 0 or v.value is None):
+                continue
+            if isinstance(v, ast.Name) and depth < 4:
+                k, sq = _mask_fold(ctx, fv, f, v.id, d, depth + 1)
+                seq = sq if sq is not None else seq
+                kinds.append(k)
                 continue
             k = fold_kind(v)
             if k == "unknown" and isinstance(v, ast.Call) and depth < 2:
